@@ -1122,6 +1122,10 @@ def c14(ctx):
                 continue
             name = "Repeat-%s-%s" % (op, gname)
             extra[name] = [{"family": name, "n": n, "e": (" " + op + " ").join([grp] * n), "a": ["MIT"]} for n in small]
+    # chains of UNLISTED -or-later forms (each one is rewritten in the scanner's buffer)
+    unl = [x for x in t["active"] if not x.endswith("-only") and not x.endswith("-or-later") and x + "-or-later" not in t["active"]][:64]
+    extra["OrLaterChain"] = [{"family": "OrLaterChain", "n": n, "e": " AND ".join(unl[k % len(unl)] + "-or-later" for k in range(n)), "a": [unl[0]]} for n in small]
+    extra["OrLaterChainSame"] = [{"family": "OrLaterChainSame", "n": n, "e": " OR ".join([unl[0] + "-or-later"] * n), "a": [unl[0]]} for n in small]
     # the budget rule on the whole small vocabulary: every kind of lexeme, alone and in the smallest contexts, in every letter case
     # of the id, of the documented suffixes and of the keywords (no growth rule: the members are unrelated texts)
     vrng = random.Random(ctx.seed)
